@@ -66,8 +66,19 @@ impl C19 {
         );
         let q = match q {
             Ok(q) => q,
-            Err(_) => {
+            Err(e) => {
                 c.stats.bump("probe.c19.quote_refused");
+                if std::env::var("VERIF_DEBUG").is_ok() {
+                    let es = e.to_string();
+                    let cls = if es.contains("converge") { "converge" } else if es.contains("overflow") { "overflow" } else { "other" };
+                    let skew = {
+                        let mxv = xs.iter().max().unwrap();
+                        let mnv = xs.iter().min().unwrap();
+                        if mxv > &(mnv * 1000u32) { "skew>1000" } else if mxv > &(mnv * 10u32) { "skew>10" } else { "skew<=10" }
+                    };
+                    let off = if offer > rs[i] { "offer>res" } else { "offer<=res" };
+                    c.stats.bump(&format!("dbg.c19.refused.{cls}.maxdec{mx}.{skew}.{off}.amp{}", amp.max(1).ilog10()));
+                }
                 return Ok(());
             }
         };
